@@ -745,6 +745,11 @@ func (e *Engine) invoke(st *State, fr *Frame, recv Val, m *types.Func, args []Va
 			}
 		}
 	}
+	if m.FullName() == "(context.Context).Done" {
+		e.trustedUsed["assumed: ctx.Done() returns one environment channel (or nil) per context"] = true
+		k(st, fr, e.ctxDone(st, recv, rt))
+		return
+	}
 	if h := e.ifaceModel(recv, m); h != nil {
 		h(e, st, fr, recv, m, args, rt, pos, k)
 		return
